@@ -153,6 +153,20 @@ def gen_field(rng, V, dim, style=None):
     return [[cs[d][v] for d in range(dim)] for v in range(V)], style
 
 
+# data types of a field ("including ... non-float64 data"): label / count images are unsigned or narrow integers
+DTYPES = ["float64"] * 6 + ["float32", "int64", "int32", "int16", "int8", "uint8", "uint16", "uint32"]
+
+
+def cast_field(F, dt):
+    """values exactly representable in `dt`: integers for integer types, non-negative (zeros kept, so that a 0 sits
+    next to non-zero values) for unsigned ones"""
+    if dt.startswith("uint"):
+        return [[float(abs(int(x * 4)) % 120) for x in row] for row in F]
+    if dt.startswith("int"):
+        return [[float(max(-120, min(120, int(x * 4)))) for x in row] for row in F]
+    return F
+
+
 def rand_V(rng):
     return rng.choice([1, 2, 2, 3, 3, 4, 4, 5, 5, 6, 7, 8, 10, 13])
 
@@ -275,9 +289,8 @@ class C12(PropertyCheck):
             E, gk = gen_graph(rng, V)
             dim = rng.choice([1, 1, 2, 3])
             F, fs = gen_field(rng, V, dim)
-            dt = rng.choice(["float64"] * 5 + ["float32", "int64", "int32"])
-            if dt.startswith("int"):
-                F = [[float(int(x * 4)) for x in row] for row in F]
+            dt = rng.choice(DTYPES)
+            F = cast_field(F, dt)
             cases.append({"kind": "morph", "V": V, "edges": E, "field": F, "dtype": dt,
                           "n": rng.choice([1, 1, 1, 2, 3, 0])})
         for _ in range(n_d):
@@ -292,6 +305,8 @@ class C12(PropertyCheck):
             E, gk = gen_graph(rng, V)
             dim = rng.choice([1, 1, 2, 3])
             F, fs = gen_field(rng, V, dim)
+            dt = rng.choice(DTYPES)
+            F = cast_field(F, dt)
             refdim = rng.randrange(dim)
             vals = sorted({row[refdim] for row in F})
             r = rng.random()
@@ -303,16 +318,15 @@ class C12(PropertyCheck):
                 th = rng.choice(vals) + 0.25
             else:
                 th = vals[-1] + 1.0                        # nothing above threshold
-            cases.append({"kind": "thresh", "V": V, "edges": E, "field": F, "refdim": refdim, "th": th})
+            cases.append({"kind": "thresh", "V": V, "edges": E, "field": F, "refdim": refdim, "th": th, "dtype": dt})
         # operation histories on one Field object
         for _ in range(n_fh):
             V = rng.choice([1, 2, 3, 3, 4, 4, 5, 6, 7, 8])
             E, gk = gen_graph(rng, V)
             dim = rng.choice([1, 1, 2, 3])
             F, fs = gen_field(rng, V, dim)
-            dt = rng.choice(["float64"] * 5 + ["float32", "int64", "int32"])
-            if dt.startswith("int"):
-                F = [[float(int(x * 4)) for x in row] for row in F]
+            dt = rng.choice(DTYPES)
+            F = cast_field(F, dt)
             cases.append({"kind": "fieldhist", "V": V, "edges": E, "field": F, "dtype": dt,
                           "ctor": rng.choice(["Field", "Field", "graph", "coo"]),
                           "steps": c12_fieldhist.gen_steps(rng)})
@@ -512,7 +526,7 @@ class C12(PropertyCheck):
         nbv = [[j for j in nbc[i] if valid[j]] for i in range(V)]
         sym = self._symmetric(c)
         lines, impl, fails = [], [], []
-        tags = ["thresh", f"dim={data.shape[1]}", "th=" + ("-inf" if th is None else
+        tags = ["thresh", "dtype=" + c.get("dtype", "float64"), f"dim={data.shape[1]}", "th=" + ("-inf" if th is None else
                                                             "none-above" if not valid.any() else "cut")]
 
         def call(name, *a, **k):
